@@ -155,13 +155,21 @@ def check_C02(tier):
     for r in results:
         if r.refused is not None:
             continue
-        is_lalr = r.V.get("isLALR1", ["?"])[0] == "yes"
+        # is the GRAMMAR LALR(1)?  decided on the verified generator's automaton (buildL) with the verified
+        # lookahead oracle, not on the automaton the implementation built (which may be the broken part)
+        impl_lalr = r.V.get("isLALR1", ["?"])[0] == "yes"
+        ref = r.V.get("isLALR1ref", ["unknown"])[0]
+        is_lalr = (ref == "yes") if ref in ("yes", "no") else impl_lalr
         if not is_lalr:
             continue
         lalr += 1
-        for nm in ("certC", "setsClosed", "laClosed", "laTerm", "prodOK"):
-            if r.V.get(nm, ["missing"])[0] != "ok":
-                ties.append({"what": "hypothesis %s of C02_complete fails on an LALR(1) grammar" % nm, "case": r.id, "src": r.case["src"]})
+        if not impl_lalr:
+            ties.append({"what": "the grammar is LALR(1) but the implementation's automaton with the verified lookaheads has a conflict",
+                         "case": r.id, "src": r.case["src"]})
+        else:
+            for nm in ("certC", "setsClosed", "laClosed", "laTerm", "prodOK"):
+                if r.V.get(nm, ["missing"])[0] != "ok":
+                    ties.append({"what": "hypothesis %s of C02_complete fails on an LALR(1) grammar" % nm, "case": r.id, "src": r.case["src"]})
         if r.warns():
             violations.append(viol(pid, r, "conflict warning for a grammar whose LALR(1) automaton has no conflict", {"warnings": r.warns()}))
         for f in r.runs:
@@ -180,7 +188,7 @@ def check_C02(tier):
     cov = std_cov(results, runs, GEN_RULE + "; inputs: all strings up to a bound + sampled sentences, membership decided by an Earley recogniser", samples,
                   {"lalr1_grammars": lalr, "sentences_checked": sentences,
                    "hypotheses_evaluated": "gramWF certA certT setsClosed laClosed certC laTerm on the implementation's automaton/table with the verified oracle's lookahead table"})
-    return common.conclude(pid, tier, "proof", proof, ties, violations, cov, ["LALR(1) is decided by the verified lookahead oracle on the implementation's automaton"])
+    return common.conclude(pid, tier, "proof", proof, ties, violations, cov, ["LALR(1) is decided by the verified lookahead oracle on the verified LR(0) generator's automaton"])
 
 
 # ------------------------------------------------------------------------------------------- C03
@@ -825,6 +833,10 @@ HAND_SPECS = [
     {"tokens": ["N"], "lits": ["'%'", "'\"'", "'+'"], "prec": [("left", ["'+'"]), ("left", ["'%'", "'\"'"])], "nts": ["E"], "start": "E",
      "rules": [{"lhs": "E", "rhs": ["E", "'+'", "E"], "prec": None}, {"lhs": "E", "rhs": ["E", "'%'", "E"], "prec": None},
                {"lhs": "E", "rhs": ["E", "'\"'", "E"], "prec": None}, {"lhs": "E", "rhs": ["N"], "prec": None}]},
+    # literal tokens whose character occurs in yaccgo's internal name prefix `$operator`
+    {"tokens": ["N"], "lits": ["'a'", "'t'", "'$'", "'o'"], "prec": [("left", ["'a'"]), ("left", ["'t'"])], "nts": ["E"], "start": "E",
+     "rules": [{"lhs": "E", "rhs": ["E", "'a'", "E"], "prec": None}, {"lhs": "E", "rhs": ["E", "'t'", "E"], "prec": None},
+               {"lhs": "E", "rhs": ["'$'", "E", "'o'"], "prec": None}, {"lhs": "E", "rhs": ["N"], "prec": None}]},
     {"tokens": ["A", "B", "C", "D", "E"], "lits": [], "prec": [], "nts": ["S", "X", "Y"], "start": "S",
      "rules": [{"lhs": "S", "rhs": ["A", "Y", "E"], "prec": None}, {"lhs": "S", "rhs": ["A", "X", "D"], "prec": None},
                {"lhs": "S", "rhs": ["B", "Y", "D"], "prec": None}, {"lhs": "X", "rhs": ["C"], "prec": None},
@@ -856,6 +868,14 @@ def make_xcases(tier, rng, n=None):
     for i in range(max(3, n // 6)):
         sp = gen.expr_grammar(rng)
         xc.append({"id": "xe:%d" % i, "xs": xrun.xspec(sp, rng), "kind": "expr"})
+    # alternatives with byte-identical action text but differently tagged symbols
+    twin_hand = {"tokens": ["A", "B"], "lits": [], "prec": [], "nts": ["S", "I"], "start": "S",
+                 "rules": [{"lhs": "S", "rhs": ["I"], "prec": None}, {"lhs": "S", "rhs": ["S", "I"], "prec": None},
+                           {"lhs": "I", "rhs": ["A"], "prec": None}]}
+    xc.append({"id": "xt:hand", "xs": xrun.xspec_twin(twin_hand, rng, p=1.0), "kind": "twin"})
+    for i in range(max(3, n // 8)):
+        sp = gen.rand_grammar(rng, max_t=4, max_n=2, max_len=3, p_lit=0.0, p_split=0.0, p_case=0.0)
+        xc.append({"id": "xt:%d" % i, "xs": xrun.xspec_twin(sp, rng), "kind": "twin"})
     return xc
 
 
@@ -996,8 +1016,11 @@ def check_C08(tier):
                            ["GetToken is the harness's; actions are linear over union fields modulo a prime so Go int, JS number and Lean Int agree"])
 
 
-C08_THEOREMS = ["Y.Props.C08_equiv", "Y.AD.astep_refines", "Y.AD.arun_refines"]
-C08_MODULES = ["Yv.Props.C08"]
+C08_THEOREMS = ["Y.Props.C08_equiv", "Y.AD.astep_refines", "Y.AD.arun_refines",
+                # the driver text of both Go templates, translated on every run (Gen/Driver.lean), IS the array driver model
+                "C08b.step_global_eq", "C08b.step_object_eq", "C08b.parser_global_eq", "C08b.parser_object_eq",
+                "C08b.push_global_eq", "C08b.push_object_eq", "C08b.pop_global_eq", "C08b.pop_object_eq"]
+C08_MODULES = ["Yv.Props.C08", "Yv.Props.C08b"]
 C08_LEVEL = "proof"
 
 
@@ -1022,6 +1045,50 @@ def eval_tree(xs, g, tree, pos):
     return acc % xrun.MOD, pos
 
 
+SUBST_HAND = [
+    # corner cases of the two rewriting passes ($$ first, then $digits), comment closing, out-of-range references
+    ("%union { v int; w int }\n%token <v> A\n%token <w> B\n%type <v> S\n%start S\n%%\nS : A B A { $$ = $1 + $3 }\n  | A { $$ = $1; $$ = $$ + $$1 }\n"
+     "  | B A B { $$$1 $ $a $1a $01 $$$ $2$$ $1$2 **/ */*/ end$ }\n  | A A { /* $$ */ // $1\n }\n  | B ;\n%%\n"),
+    ("%union { v int }\n%token <v> A\n%type <v> S\n%start S\n%%\nS : A A A { $$ = $0 } ;\n%%\n"),
+    ("%union { v int }\n%token <v> A\n%type <v> S\n%start S\n%%\nS : A A A { $$ = $4 } ;\n%%\n"),
+    ("%union { v int }\n%token <v> A\n%type <v> S\n%start S\n%%\nS : A A A { $$ = $99999999999999999999 } ;\n%%\n"),
+    ("%union { v int }\n%token <v> A\n%token '-'\n%type <v> S\n%start S\n%%\nS : A '-' A '-' A '-' A '-' A '-' A '-' { $$ = $11 + $012 + $1 }\n  | { \"$1\" }\n  | '-' { `$$` é 你好 } ;\n%%\n"),
+]
+
+
+def subst_ties(sources):
+    """the verified substitution model (C07_subst_*) must emit exactly the reduce-case text the three
+    emitters produce (Go global, Go -o, TypeScript), and refuse exactly where they panic"""
+    cases = [{"id": "s%d" % i, "src": src} for i, src in enumerate(sources)]
+    inp = "".join(json.dumps(c) + "\n" for c in cases).encode()
+    p = common.sh([common.BIN + "/yharness", "subst"], inp=inp, timeout=600)
+    iblocks = parse_blocks(p.stdout.decode(errors="replace"), "SCASE", "SEND")
+    mo = common.sh([common.YMODEL], inp=p.stdout, timeout=600)
+    mblocks = parse_blocks(mo.stdout.decode(errors="replace"), "SCASE", "SEND")
+    ties, n, panics = [], 0, 0
+    for c in cases:
+        b, m = iblocks.get(c["id"]), mblocks.get(c["id"])
+        if b is None or any(l.startswith("REFUSE") for l in b):
+            continue
+        if m is None:
+            ties.append({"what": "substitution model gave no answer", "case": c["id"], "src": c["src"][:1500]})
+            continue
+        if any(l.startswith("M SSKIP") for l in m):
+            continue
+        for tag in ("SGO", "SOBJ", "STS"):
+            iv = next((l.split()[1] for l in b if l.startswith(tag + " ")), None)
+            mv = next((l.split()[2] for l in m if l.startswith("M " + tag + " ")), None)
+            n += 1
+            panics += iv == "PANIC"
+            if iv != mv:
+                dec = lambda h: h if h in (None, "PANIC", "-") else bytes.fromhex(h).decode(errors="replace")
+                a, bb = dec(iv) or "", dec(mv) or ""
+                k = next((i for i in range(min(len(a), len(bb))) if a[i] != bb[i]), min(len(a), len(bb)))
+                ties.append({"what": "reduce-case text of the substitution model differs from the emitter (%s)" % tag, "case": c["id"],
+                             "src": c["src"][:1500], "impl": a[max(0, k - 60):k + 60], "model": bb[max(0, k - 60):k + 60]})
+    return ties, n, panics
+
+
 def check_C07(tier):
     pid = "C07"
     rng = random.Random(common.seed() * 1000003 + 7)
@@ -1034,6 +1101,17 @@ def check_C07(tier):
     t2, nruns = x_model_ties(res)
     ties += t2
     ties += driver_cert_ties(res)
+    # the text half: the emitters' rewriting of `$$` / `$n` against the verified substitution model
+    srcs = list(SUBST_HAND)
+    for c in res["usable"]:
+        for vn in ("go-packed", "ts"):
+            m = res["meta"].get("%s|%s" % (c["id"], vn))
+            if m:
+                srcs.append(m["src"])
+    for i in range(20 if tier == "quick" else 300):
+        srcs.append(gen.render_file(gen.file_spec(rng), rng))
+    t3, subst_n, subst_panics = subst_ties(srcs)
+    ties += t3
     violations, samples = [], []
     vnames = [v[3] for v in xrun.VARIANTS if not (v[0] == "typescript" and res["node"] is None)]
     accepted = 0
@@ -1068,12 +1146,17 @@ def check_C07(tier):
     cov = {"evaluations": accepted, "distinct_nontrivial": len(res["usable"]),
            "rule": "grammars with random linear actions $$ = (K + sum c_k * $k) mod p over two union fields (tags alternate a/b on tokens and nonterminals; empty rules, rules up to length 11, deep nesting); all five variants; evaluations = accepted runs whose value was compared with an independent bottom-up evaluation of the parse tree rebuilt from the reduction log",
            "samples": samples, "runs_total": nruns, "variants": vnames, "ts_skipped": res["skipped_ts"],
+           "reduce_case_texts_compared_with_substitution_model": subst_n, "of_which_the_emitter_panics": subst_panics,
            "programs": len(res["usable"]) * len(vnames), "disagreements_checked": len(ties) + len(violations), "trusted_base": TRUSTED}
     return common.conclude(pid, tier, C07_LEVEL, proof, ties, violations, cov, ["$k only for 1 <= k <= |rhs| and only for symbols with a tag"])
 
 
-C07_THEOREMS = ["Y.Props.C07_value", "Y.Props.C07_slots"]
-C07_MODULES = ["Yv.Props.C07"]
+C07_THEOREMS = ["Y.Props.C07_value", "Y.Props.C07_slots",
+                # the text half: the emitters' rewriting of the action text
+                "Y.Props.C07_subst_chunks", "Y.Props.C07_subst_chunks_ts", "Y.Props.C07_subst_verbatim", "Y.Props.C07_subst_verbatim_ts",
+                "Y.Props.C07_subst_plain", "Y.Props.C07_subst_refuses", "Y.Props.C07_subst_refuses_ts",
+                "Y.Props.C07_subst_no_dollar", "Y.Props.C07_subst_no_dollar_ts", "Y.Props.comment_closed", "Y.Props.comment_closed_rule"]
+C07_MODULES = ["Yv.Props.C07", "Yv.Props.C07b"]
 C07_LEVEL = "proof"
 
 
@@ -1215,7 +1298,7 @@ C16_NAMES_T = ["NUM", "IDENT", "tok_1", "T9", "_x", "Étoile", "λ", "KW_IF", "a
 # keywords or emitter-internal names of either target language
 C16_NAMES_N = ["expr", "stmt_list", "S1", "_n", "Program", "opt", "é", "n0", "Z",
                "function", "class", "func", "var", "new", "default", "import", "Parser", "ValType", "translate", "StateSym"]
-C16_LITS = list("+-*/()=<>!&^~,.#@[]?:;|$_azAZ09") + ['"', "%", "{", "}", "`"]
+C16_LITS = list("+-*/()=<>!&^~,.#@[]?:;|$_azAZ09") + ['"', "%", "{", "}", "`", "\\"]
 
 
 def c16_spec(rng):
@@ -1228,7 +1311,7 @@ def c16_spec(rng):
     rules = []
     for i, n in enumerate(nts):
         for a in range(rng.randint(1, 3)):
-            ln = rng.choice([0, 1, 1, 2, 3, 5])
+            ln = rng.choice([0, 1, 1, 2, 3, 5, 5, 11] if a > 0 else [0, 1, 1, 2, 3, 5])
             rhs = [rng.choice(terms) if (a == 0 or rng.random() < 0.6) else rng.choice(nts) for _ in range(ln)]
             rules.append({"lhs": n, "rhs": rhs, "prec": None})
     prec = []
@@ -1251,13 +1334,18 @@ def c16_render(sp, target, pkg, rng_actions):
     for s in sp["tokens"] + sp["lits"] + sp["nts"]:
         if rng_actions.random() < 0.6:
             tags[s] = rng_actions.choice(fields)
+    # a rule with ten or more symbols refers to its last symbol ($10, $11, …)
+    for r in sp["rules"]:
+        if len(r["rhs"]) >= 10:
+            tags[r["lhs"]] = tags.get(r["lhs"], "val")
+            tags[r["rhs"][-1]] = tags[r["lhs"]]
     acts = []
     for r in sp["rules"]:
         a = ""
         if r["lhs"] in tags:
             same = [k for k, s in enumerate(r["rhs"]) if tags.get(s) == tags[r["lhs"]]]
-            if same and rng_actions.random() < 0.7:
-                a = "$$ = $%d" % (same[0] + 1)
+            if same and (len(r["rhs"]) >= 10 or rng_actions.random() < 0.7):
+                a = "$$ = $%d" % ((same[-1] if len(r["rhs"]) >= 10 else rng_actions.choice(same)) + 1)
             elif rng_actions.random() < 0.5:
                 a = "$$ = $$"
             if rng_actions.random() < 0.3:
@@ -1462,8 +1550,16 @@ def check_C15(tier):
                 ties.append({"what": "TypeScript history run incomplete", "case": c["id"], "got": len(tr), "want": len(c["hist"])})
         if len(samples) < 2:
             samples.append({"case": c["id"], "history": c["hist"][:8], "results": (res["out"].get(h) or [])[:4]})
-    cov = {"evaluations": evals, "distinct_nontrivial": len(res["usable"]),
-           "rule": "per grammar: a shuffled history with repeats (accepted and rejected inputs mixed) on the global Go parser with ParserInit() in between, on one reused -o context with c.ParserInit() in between, on fresh contexts, on up to 16 contexts parsing concurrently (3 rounds each) under the Go race detector, and on the TypeScript parser with initialize() in between; every result must equal the pure-function result of the Lean driver model on the scraped table",
+    # nested parses through the package-global template's context stack (PushContex / PopContex)
+    nt, nv, ne = xrun.run_c15_nested(rng)
+    ties += nt
+    evals += ne
+    for v in nv[:3]:
+        violations.append({"key": common.finding_key({"nested": v["input"], "pos": v["position_in_history"]}),
+                           "what": "global parser with nested parses: after ParserInit() the result of Parser(%r) is %r, alone it is %r" % (v["input"], v["got"], v["alone"]),
+                           "replay": dict(v, property=pid)})
+    cov = {"evaluations": evals, "distinct_nontrivial": len(res["usable"]) + 1,
+           "rule": "a fixed grammar whose action parses a sub-string with the same global parser (PushContex/ParserInit/Parser/PopContex), history with failing nested parses vs fresh-process runs; per grammar: a shuffled history with repeats (accepted and rejected inputs mixed) on the global Go parser with ParserInit() in between, on one reused -o context with c.ParserInit() in between, on fresh contexts, on up to 16 contexts parsing concurrently (3 rounds each) under the Go race detector, and on the TypeScript parser with initialize() in between; every result must equal the pure-function result of the Lean driver model on the scraped table",
            "samples": samples, "race_detector": bool(res.get("race_build")), "ts_skipped": 0 if res["node"] else len(res["usable"]),
            "programs": len(res["usable"]) * 3, "disagreements_checked": len(ties) + len(violations), "trusted_base": TRUSTED + ["Go race detector"],
            "partial": ["memory-level data races are outside the Lean model; they are covered by the race detector run only"]}
@@ -1479,7 +1575,8 @@ def xviol15(pid, res, c, variant, label, w, got, exp):
 
 C15_THEOREMS = ["Y.Props.C15_reinit_global", "Y.Props.C15_reinit_ctx", "Y.Props.bottomIntact_preserved",
                 "Y.Props.C15_reinit_ctx_after_parses", "Y.Props.C15_contexts", "Y.Props.C15_contexts_run"]
-C15_MODULES = ["Yv.Props.C15"]
+C15_THEOREMS += ["C08b.init_global_eq", "C08b.init_object_eq"]     # ParserInit of both Go templates, translated
+C15_MODULES = ["Yv.Props.C15", "Yv.Props.C08b"]
 C15_LEVEL = "proof"
 
 
@@ -1588,7 +1685,7 @@ def digest_front(lines):
 
 
 def sym_name(s):
-    return "$operator" + s[1] if s.startswith("'") else s
+    return "$operator" + gen.lit_char(s) if s.startswith("'") else s
 
 
 def expected_front(fs):
@@ -1611,7 +1708,7 @@ def expected_front(fs):
     for t in fs["tokens"]:
         syms[t] = {"tag": fs["tags"].get(t, ""), "value": fs["nums"].get(t), "level": level.get(t, (-1, 2))}
     for l in fs["lits"]:
-        syms[sym_name(l)] = {"tag": fs["tags"].get(l, ""), "value": ord(l[1]), "level": level.get(l, (-1, 2))}
+        syms[sym_name(l)] = {"tag": fs["tags"].get(l, ""), "value": ord(gen.lit_char(l)), "level": level.get(l, (-1, 2))}
     for n in fs["nts"]:
         syms[n] = {"tag": fs["tags"].get(n, ""), "value": None, "level": (-1, 2)}
     return {"rules": rules, "syms": syms, "start": fs["start"], "code": fs["prologue"], "union": fs["union"], "rest": fs["epilogue"]}
@@ -1717,9 +1814,9 @@ def c11_spec(rng):
     """token declaration mixes"""
     nt = rng.randint(1, 6)
     tokens = ["T%d" % i for i in range(nt)]
-    lits = ["'%s'" % c for c in rng.sample(list("+-*/()=<>!&^~,.#@AZaz059"), rng.randint(0, 4))]
+    lits = ["'%s'" % c for c in rng.sample(list("+-*/()=<>!&^~,.#@AZaz059") + ["\\"], rng.randint(0, 4))]   # '\' is the quote character
     nums = {}
-    used = set(ord(l[1]) for l in lits)
+    used = set(ord(gen.lit_char(l)) for l in lits)
     for t in tokens:
         if rng.random() < 0.5:
             n = rng.choice([3, 4, 5, 6, 7, 2, 43, 44, 45, 65, 66, 97, 256, 257, 258, 300, 1000])
@@ -1748,7 +1845,7 @@ def c11_spec(rng):
     sp["redecl"] = []
     unnumbered = [t for t in sp["tokens"] if t not in sp["nums"]]
     if unnumbered and rng.random() < 0.5:
-        top = max([2] + list(sp["nums"].values()) + [ord(l[1]) for l in lits])
+        top = max([2] + list(sp["nums"].values()) + [ord(gen.lit_char(l)) for l in lits])
         t = rng.choice(unnumbered)
         n = top + rng.randint(1, 3)
         sp["redecl"].append((t, n))
@@ -1794,8 +1891,12 @@ def check_C11(tier):
         why = None
         for l in sp["lits"]:
             v = terms.get(sym_name(l))
-            if v is not None and v["value"] != ord(l[1]):
+            if v is not None and v["value"] != ord(gen.lit_char(l)):
                 why = "literal %s numbered %d instead of its character code" % (l, v["value"])
+            used_lit = any(l in r["rhs"] for r in sp["rules"]) or any(l in ss for _, ss in sp["prec"])
+            if v is None and used_lit:
+                why = "literal %s (character code %d) is not a terminal of the grammar; terminals: %s" % (
+                    l, ord(gen.lit_char(l)), sorted((x["value"], nm) for nm, x in terms.items()))
         for t, nnum in list(sp["nums"].items()) + list(sp.get("late_nums", {}).items()):
             if terms.get(t, {}).get("value") != nnum:
                 why = "token %s declared with number %d is numbered %s" % (t, nnum, terms.get(t, {}).get("value"))
@@ -2097,7 +2198,7 @@ def check_C14(tier):
         srcs.append(("example:" + os.path.basename(f), open(f, encoding="utf-8").read()))
     n = 25 if tier == "quick" else 200
     for i in range(n):
-        sp = gen.rand_grammar(rng, max_t=6, max_n=5, p_prec=0.7, p_lit=0.4, big=(i % 5 == 4))
+        sp = gen.rand_grammar(rng, max_t=6, max_n=5, p_prec=0.7, p_lit=0.4, big=(i % 5 == 4), p_case=0.3)
         xs = xrun.xspec(sp, rng)
         srcs.append(("rand:%d" % i, xrun.render_x(xs, "go", "p", False, False)))
     for i in range(5 if tier == "quick" else 40):
